@@ -630,6 +630,11 @@ def validate_flows(ck, recs):
                     and "post" in pe and pe["post"]["genpresent"] and e["post"]["nisame"]:
                 cand = (r, k)
     if cand is None:
+        if ck.violations:
+            # the tree under test already violates the property in these flows (e.g. it never re-creates the generator):
+            # the self-test has nothing to corrupt; the violations above stand
+            ck.extra["session_trace_selftest"] = "skipped: no recorded flow re-creates an existing NLDF generator (violations reported)"
+            return
         raise MachineryError("self-test: no recorded flow re-creates an existing NLDF generator")
     r, k = cand
     bad = {"id": "selftest-a", "events": copy.deepcopy(r["events"])}
